@@ -11,7 +11,7 @@ class Boolean(TypedField):
 
     def __set__(self, instance, value):
         mapping = {"True": True, "False": False}
-        value = mapping[value] if value in mapping else value
+        value = mapping[value] if isinstance(value, str) and value in mapping else value
         super().__set__(instance, value)
 
     def _validate(self, value):
